@@ -1126,6 +1126,13 @@ func ruleTotalOrder(c *Ctx) {
 					}
 					return true
 				})
+				// ... or they imply it propositionally (a failed `flags equal && keys equal` case with both flags set)
+				if !guarded {
+					goal := &ast.BinaryExpr{X: x.X, Op: token.NEQ, Y: x.Y}
+					if c.propEntails(c.condsAt(fd, node), goal, false, nil) {
+						guarded = true
+					}
+				}
 				c.ob(rule, key, node.Pos(), guarded,
 					"comparison on keys that may be equal without a tie-break: for equal keys neither Less(i,j) nor Less(j,i) holds and the output order follows map iteration")
 			case *ast.CallExpr:
